@@ -174,3 +174,23 @@ def units():
         if m:
             u.replay_hook = make_hook(int(m.group(1)), int(m.group(2)))
     return us
+
+
+_wu0 = units
+
+
+def units():
+    """+ the recoding loop on the portable configuration with 32-bit words (the byte / double-word views of the union differ there)"""
+    from units import w32_clone
+    us = _wu0()
+    out = []
+    for u in us:
+        if u.tier == "quick" and u.target.endswith("::from_bigint"):
+            c = w32_clone(u, props=("C03", "C06"))
+            c.unwind = u.unwind
+            import re as _re
+            c.contracts = {k: (BI.c_shr1(int(_re.search(r"BigInt<(\d+)>", k).group(1)), 32) if "shift_right_in_word<1>" in k else v) for k, v in u.contracts.items()}
+            # BigInt<64> occupies one 64-bit storage word without __int128 (two with it: the union holds a 128-bit double word)
+            c.contracts = {k: (v.replace(" && self->words[1] == 0", "") if k == "BigInt<64>::clear" else v) for k, v in c.contracts.items()}
+            out.append(c)
+    return us + out
